@@ -51,7 +51,7 @@ def orders_from_tlc(ctx, T, W):
     return sorted({tuple(p[2]) for p in res['prints'] if p[0] == 'ORDER'})
 
 
-def run_rp(ctx, plans, per_plan):
+def run_rp(ctx, plans, per_plan, large=()):
     rng = np.random.default_rng(ctx.seed + 11)
     logdir = ctx.scratch.sub('poollog')
     cases, metas = [], []
@@ -63,7 +63,7 @@ def run_rp(ctx, plans, per_plan):
             delays = pt.delays_for(order, W, rng)
             if delays is None:
                 continue
-            sigs = pt.make_sigs(rng, (T,))
+            sigs = pt.vary(pt.make_sigs(rng, (T,)), k + k // 4)
             shared = k % 2 == 0
             kwargs = pt.kw_variant(rng, k) if shared else [pt.kw_variant(rng, k + 7 * i) for i in range(T)]
             via_group = shared and k % 4 == 2
@@ -76,10 +76,26 @@ def run_rp(ctx, plans, per_plan):
             if n_jobs != W:
                 case['check_schedule'] = case['check_schedule'] and True
             cases.append(case)
-            metas.append({'T': T, 'n_jobs': n_jobs, 'tlc_order': list(order), 'realised_completion_order': realised, 'options': 'shared' if shared else 'per-row list',
+            metas.append({'T': T, 'array': pt.ARRAY_VARIANTS[(k + k // 4) % 6], 'n_jobs': n_jobs, 'tlc_order': list(order), 'realised_completion_order': realised, 'options': 'shared' if shared else 'per-row list',
                           'progress': progress, 'api': 'BycycleGroup.fit' if via_group else 'compute_features_2d', 'return_samples': rs,
                           'worker_processes_used': len(case['logs'])})
             k += 1
+    # beyond the scopes TLC enumerates orders for: many more rows than workers (per-row option lists, blocks of tasks per worker);
+    # the completion order is whatever the real pool does - its worker logs must still be a behaviour of the pool specification
+    for T, W in large:
+        sigs = pt.vary(pt.make_sigs(rng, (T,), n=96), k)
+        shared = k % 3 == 2
+        kwargs = pt.kw_variant(rng, k) if shared else [pt.kw_variant(rng, k + 5 * i) for i in range(T)]
+        delays = [float(rng.integers(0, 3)) * 0.01 for _ in range(T)]
+        case, realised = pt.run_2d(sigs, 64, (8, 12), kwargs, W, None, delays, logdir, via_group=False, return_samples=True)
+        case['ref'] = pt.reference_2d(sigs, 64, (8, 12), kwargs)
+        case['pid'] = 'C11'
+        case['check_logs'] = case['check_schedule']        # placement + the necessary condition on the logs; no schedule search
+        case['check_schedule'] = False
+        cases.append(case)
+        metas.append({'T': T, 'array': pt.ARRAY_VARIANTS[k % 6], 'n_jobs': W, 'tlc_order': [], 'realised_completion_order': realised, 'options': 'shared' if shared else 'per-row list',
+                      'progress': None, 'api': 'compute_features_2d', 'return_samples': True, 'worker_processes_used': len(case['logs'])})
+        k += 1
     judge(ctx, cases, metas, 'C11')
     return cases, metas
 
@@ -160,11 +176,12 @@ def run(ctx):
     ctx.assumptions = ['fork start method of this Linux image; completion orders are induced by injected delays and only REPORTED from timestamps, never used for judging']
     if ctx.quick:
         run_mc(ctx, 'C11', [(4, 2), (4, 4), (5, 3)])
-        run_rp(ctx, [(3, 3), (3, 2), (4, 4), (4, 2)], 8)
+        run_rp(ctx, [(3, 3), (3, 2), (4, 4), (4, 2)], 8, large=[(9, 1), (17, 2), (19, 1), (33, 3)])
         run_fault_extension(ctx, 5)
     else:
         run_mc(ctx, 'C11', [(4, 2), (4, 4), (5, 3), (6, 3), (6, 6)])
-        run_rp(ctx, [(3, 3), (3, 2), (4, 4), (4, 2), (4, 3), (5, 5), (5, 3), (5, 2)], 40)
+        run_rp(ctx, [(3, 3), (3, 2), (4, 4), (4, 2), (4, 3), (5, 5), (5, 3), (5, 2)], 40,
+               large=[(9, 1), (17, 2), (19, 1), (33, 3), (65, 4), (130, 8), (257, 2), (300, 16), (12, 1), (25, 3)])
         run_fault_extension(ctx, 30)
 
 
